@@ -200,10 +200,11 @@ theorem C13_order (syms syms' : List Sym) (h : syms.Perm syms') :
 every translator / constructor the map refers to was extracted, node classes carry names,
 every named symbol class (but `Admittance`) has a translator, the sine shift of a phase given in
 degrees is 90 (finding 2, repaired by 0b34a29), every two-terminal translator swaps its terminals
-under `reverse` (006d781). -/
+under `reverse` (006d781), coordinates are snapped to 9 decimals before they are rounded to the
+2-decimal node grid (631ff19). -/
 theorem C13_tables :
     classNamesDistinct = true ∧ translatorMapKeysDistinct = true ∧ translatorMapClosed = true ∧
     nodeClassesNamed = true ∧ namedClassesTranslated = true ∧ sinShiftInDegrees = true ∧
-    allTwoTerminalSwap = true := by decide
+    allTwoTerminalSwap = true ∧ Gen.roundDigits = [9, 2] := by decide
 
 end CC
